@@ -431,30 +431,6 @@ def _same_owner_fact(atom, pol, release):
     return False
 
 
-def _acquire_summary(p, tryacq, led):
-    """partition LockResult members returned by try_acquire into holding / non-holding:
-    holding = on every path to the return, `self.owner = <owner param>` was executed or
-    `self.owner == owner` was tested true."""
-    tc = cfg_of(tryacq, led)
-    holding, non = set(), set()
-    sites = enum_return_sites(tryacq, "LockResult")
-    if not sites:
-        raise AnchorError("try_acquire returns no LockResult members")
-    take = {tc.node_of(n) for k, n in attr_writes(tryacq.node, "owner", "self")
-            if k == "assign" and isinstance(n, ast.Assign) and isinstance(n.value, ast.Name) and n.value.id in tryacq.params()}
-    for member, ret in sites:
-        rn = tc.node_of(ret)
-        facts = guard_facts(tc, rn)
-        same = any(_same_owner_fact(a, pol, tryacq) for a, pol, _ in facts)
-        seen = tc.reach(starts=[tc.entry], avoid=take)
-        if same or rn not in seen:
-            holding.add(member)
-        else:
-            non.add(member)
-    # a member can be returned from both kinds of site: treat as non-holding
-    holding -= non
-    return holding, non
-
 
 def _enclosing_loop(n):
     from ..loader import parent
@@ -463,16 +439,6 @@ def _enclosing_loop(n):
         p_ = parent(p_)
     return p_ if isinstance(p_, ast.For) else None
 
-
-def _passed_fact(atom, pol):
-    if isinstance(atom, ast.Compare) and len(atom.ops) == 1:
-        s = src(atom.left) + " " + src(atom.comparators[0])
-        if "CheckpointResult.PASSED" in s:
-            if isinstance(atom.ops[0], (ast.NotEq, ast.IsNot)) and not pol:
-                return True
-            if isinstance(atom.ops[0], (ast.Eq, ast.Is)) and pol:
-                return True
-    return False
 
 
 def _write_receiver(n, fld):
